@@ -272,9 +272,10 @@ let split3 s = match String.split_on_char ',' s with
   | _ -> failwith "result"
 
 let judge cls ms verb path (reg, res) : string option * string option =
-  (* verb "WS": a WebSocket handshake (GET + Upgrade: websocket), whose verb is the custom kind WEBSOCKET. The recorder
-     cannot be hijacked, so no handler is ever reached on the unchanged code: only soundness is judged (if a method is
-     reached, one of its rules carries WEBSOCKET or '*' and covers the path), not completeness, and not the model *)
+  (* verb "WS": a WebSocket handshake (GET + Upgrade: websocket), whose verb is the custom kind WEBSOCKET. The harness
+     answers through a response writer that can be hijacked (an in-memory pipe; the client side sends one empty JSON
+     message and a close frame), so a handshake reaches its method like any request and is judged in full: soundness,
+     completeness and the model *)
   let ws = (verb = "WS") in
   let verb = if ws then "WEBSOCKET" else verb in
   let want_reg = spec_reg cls ms in
@@ -282,11 +283,11 @@ let judge cls ms verb path (reg, res) : string option * string option =
   else if reg <> want_reg then (Some (Printf.sprintf "registration %s, the template specification says %s" reg want_reg), None)
   else begin
     let (_, dispatched, _) = split3 res in
-    let spec = if reg = "acc" && not (ws && dispatched = "-") then spec_route cls ms verb path (split3 res) else None in
+    let spec = if reg = "acc" then spec_route cls ms verb path (split3 res) else None in
     let (root, mreg) = model_build cls ms in
     let mres = if mreg = "acc" then model_route cls root verb path else res in
     let model = if mreg <> reg then Some (Printf.sprintf "model: registration %s, implementation %s" mreg reg)
-      else if reg = "acc" && (not ws) && mres <> res then Some (Printf.sprintf "model routes to %s, implementation answered %s" mres res) else None in
+      else if reg = "acc" && mres <> res then Some (Printf.sprintf "model routes to %s, implementation answered %s" mres res) else None in
     (spec, model)
   end
 
@@ -315,7 +316,7 @@ let run inp obs : string option * string option =
   | ["RD"; rs; drops; verb; path; cls], [reg; oks; res] ->
     (* C11: path.delRule on the registered trie; judged as "removal = never having registered" *)
     let ms = dec_ruleset rs and path = string_of_hexfield path in
-    (* verb WS: a WebSocket handshake, judged for soundness only (see judge) *)
+    (* verb WS: a WebSocket handshake, judged like any request (see judge) *)
     let ws = (verb = "WS") in
     let verb = if ws then "WEBSOCKET" else verb in
     let dropped = if drops = "-" then [] else L.map int_of_string (String.split_on_char '.' drops) in
@@ -332,7 +333,7 @@ let run inp obs : string option * string option =
       let spec =
         if st = "panic" then Some "the mux panicked on a request after delRule"
         else if L.mem meth names then Some (Printf.sprintf "the request was routed to %s, whose rules were removed (a stale route)" meth)
-        else match (if ws && meth = "-" then None else spec_route cls ms' verb path (split3 res)) with
+        else match (spec_route cls ms' verb path (split3 res)) with
           | Some e -> Some ("after removing [" ^ String.concat " " names ^ "] (judged against the rule set without them): " ^ e)
           | None ->
             (* every method has at least its implicit binding: delRule reports true the first time, false after *)
@@ -349,7 +350,7 @@ let run inp obs : string option * string option =
           let moks = if moks = [] then "-" else String.concat "," moks in
           let mres = model_route cls root' verb path in
           if moks <> oks then Some (Printf.sprintf "model of delRule reports [%s], implementation [%s]" moks oks)
-          else if (not ws) && mres <> res then Some (Printf.sprintf "after removal the model routes to %s, implementation answered %s" mres res)
+          else if mres <> res then Some (Printf.sprintf "after removal the model routes to %s, implementation answered %s" mres res)
           else None
         end in
       (spec, model)
